@@ -395,9 +395,10 @@ int ABT_thread_create_many(int num_threads, ABT_pool *pool_list,
                                ABTI_THREAD_TYPE_YIELDABLE |
                                    ABTI_THREAD_TYPE_NAMED,
                                NULL, THREAD_POOL_OP_PUSH, &p_newthread);
-            newthread_list[i] = ABTI_ythread_get_handle(p_newthread);
             /* TODO: Release threads that have been already created. */
             ABTI_CHECK_ERROR(abt_errno);
+            /* p_newthread is set only when the creation succeeded. */
+            newthread_list[i] = ABTI_ythread_get_handle(p_newthread);
         }
     }
 
